@@ -3,7 +3,10 @@ A real `Valve` object runs unmodified in slow-group mode: its TerminalVars are l
 `PacketVar`s over a bytearray owned by a minimal stand-in sync group, its DeviceVars fall back to
 instance attributes, and `ebpfcat.devices.monotonic` is replaced by a scripted clock.  Coil,
 target, error and lastGood after every event are compared with the Lean model `Ebv.Valve`; the
-property text is evaluated on the observed values."""
+property text is evaluated on the observed values.  In addition 1-3 real `Valve` objects are put into ONE real
+slow `SyncGroup` (real terminal classes with `PacketDesc` bits, real `SyncGroup.__init__`, `start()`, `allocate()`,
+cycles through the real `update_devices`) and compared with the group model `Ebv.Valve.gtrace`; there the oracle
+judges each valve by what was requested of that valve."""
 
 ID = "C27"
 LEAN_MODULES = ["Ebv.Props.C27"]
@@ -14,6 +17,9 @@ THEOREMS = [
     "Ebv.C27.timeout_goes_safe", "Ebv.C27.update_dichotomy", "Ebv.C27.no_error_before_movingTime",
     "Ebv.C27.confirms_bool", "Ebv.C27.good_eq_confirms_closed_safe", "Ebv.C27.error_sticky_until_reset",
     "Ebv.C27.error_only_by_timeout", "Ebv.C27.good_open_safe_inverted",
+    # several valves in one slow sync group: every valve behaves as if it were alone
+    "Ebv.C27.gstep_member", "Ebv.C27.group_independent", "Ebv.C27.group_others_untouched", "Ebv.C27.group_length",
+    "Ebv.C27.group_valve_property", "Ebv.C27.group_update_dichotomy",
 ]
 TRUSTED = ["hand-written model Ebv.Valve of Valve.update/reset, tied by exact correspondence of coil/target/error/lastGood after every event",
            "harness/vh/props/c27.py stand-in sync group (current_data + pdo_assign only) and scripted clock; real PacketVar/TerminalVar/DeviceVar code runs"]
@@ -24,7 +30,11 @@ ASSUMPTIONS = ["time is counted in ticks of 1/1024 s below 2**40 ticks, so every
                "for safeState=True only the error reaction is part of the property (the registered quantifier restricts the position check to the default safe state)"]
 RULE = ("cases = safeState x movingTime (ticks; 0, small, class default 5 s, random) x start clock x initial coil/switch bits x event list "
         "starting with reset; events: target change (bool, sometimes other ints), switch reading, clock advance (0, 1, around movingTime, "
-        "random), update, reset; non-trivial = at least one update follows the target and at least one times out")
+        "random), update, reset; non-trivial = at least one update follows the target and at least one times out; "
+        "group cases = 1-3 real Valve objects in ONE real slow SyncGroup (real terminal classes with PacketDesc bits on one or two terminals, real "
+        "SyncGroup.__init__/start()/allocate(), cycles through the real update_devices), different or identical safeState / movingTime, events "
+        "addressed to single valves + whole-group cycles; the oracle judges every valve by what was requested of THAT valve (targets assigned to it, "
+        "switch bits written for it, its resets) and the coil bit in the process image, and requires target / error of every valve to be its own")
 
 TICK = 1024.0
 
@@ -252,6 +262,295 @@ def directed():
     return out
 
 
+# ---------------------------------------------------------------- several valves in ONE slow sync group
+def build_group(case):
+    """the real way: terminal classes with PacketDesc process variables, Valve objects linked to them, a real SyncGroup
+    made of all the valves and started with the real start() (allocate, assembled frame = process image); only the cyclic
+    task is replaced (no bus here)"""
+    import asyncio
+    from ebpfcat import devices
+    from ebpfcat.ebpfcat import SyncGroup, EBPFTerminal, PacketDesc
+    from ebpfcat.ethercat import EtherCat, SyncManager
+    from .. import progs
+    sms = {"coil": SyncManager.OUT, "open": SyncManager.IN, "closed": SyncManager.IN}
+    loop = asyncio.new_event_loop()
+    asyncio.set_event_loop(loop)
+    try:
+        ec = EtherCat("sim")
+    finally:
+        asyncio.set_event_loop(None)
+        loop.close()
+    terms = []
+    for k, spec in enumerate(case["terms"]):
+        attrs = {f"v{i}{tag}": PacketDesc(sms[tag], vc[tag][1], vc[tag][2])
+                 for i, vc in enumerate(case["group"]) for tag in sms if vc[tag][0] == k}
+        t = type(f"Term{k}", (EBPFTerminal,), attrs)(ec)
+        t.position, t.name = spec["pos"], f"T{k}"
+        t.pdo_in_sz, t.pdo_out_sz = spec["in_sz"], spec["out_sz"]
+        t.pdo_in_off, t.pdo_out_off = 0x1100 + 0x10 * k, 0x1000 + 0x10 * k
+        t.use_fmmu = bool(spec["fmmu"])
+        terms.append(t)
+    valves = []
+    for i, vc in enumerate(case["group"]):
+        v = devices.Valve()
+        for tag in sms:
+            setattr(v, {"coil": "coil", "open": "openSwitch", "closed": "closedSwitch"}[tag], getattr(terms[vc[tag][0]], f"v{i}{tag}"))
+        v.safeState = bool(vc["safe"])
+        mt = vc["mt"]
+        v.movingTime = mt // 1024 if mt % 1024 == 0 and vc["mtint"] else mt / TICK
+        valves.append(v)
+    saved = SyncGroup.packet_index
+    try:
+        sg = SyncGroup(ec, valves)
+        progs._start_slow(sg)
+        sg.wkc_errors = 0        # what the (replaced) cyclic task does first
+    finally:
+        SyncGroup.packet_index = saved
+
+    def where(i, tag):       # byte and bit of a valve's process variable in the process image (positions from the real allocate())
+        tk, pos, bit = case["group"][i][tag]
+        return sg.pdo_assign[terms[tk]][sms[tag]] + pos, bit
+    return sg, valves, where
+
+
+def run_group(case):
+    """per event: dict(ev, now, reads = clock reads per valve, image bits and device variables of every valve after it)"""
+    import logging
+    from ebpfcat import devices
+    logging.disable(logging.CRITICAL)
+    try:
+        sg, valves, where = build_group(case)
+    finally:
+        logging.disable(logging.NOTSET)
+    data = sg.current_data
+    n = len(valves)
+    now = [case["t0"]]
+    reads = []
+
+    def clock():
+        reads.append(1)
+        return now[0] / TICK
+
+    def setbit(i, tag, value):
+        pos, bit = where(i, tag)
+        data[pos] = data[pos] | (1 << bit) if value else data[pos] & ~(1 << bit) & 0xff
+
+    def getbit(i, tag):
+        pos, bit = where(i, tag)
+        return bool(data[pos] >> bit & 1)
+
+    def rest():              # the process image without the coil bits (and without the working counters, which are the bus's)
+        d = bytearray(data)
+        for pos in sg.packet.counters:
+            d[pos:pos + 2] = b"\0\0"
+        for i in range(n):
+            pos, bit = where(i, "coil")
+            d[pos] &= ~(1 << bit) & 0xff
+        return bytes(d)
+
+    def snapshot():
+        out = []
+        for i, v in enumerate(valves):
+            lg = getattr(v, "lastGood", None)
+            out.append({"coil": getbit(i, "coil"), "coil_read": v.coil, "target": v.target, "error": v.error,
+                        "lastGood": None if lg is None else lg * TICK})
+        return out
+
+    for i, vc in enumerate(case["group"]):
+        setbit(i, "open", vc["open0"])
+        setbit(i, "closed", vc["closed0"])
+        setbit(i, "coil", vc["coil0"])
+    steps = []
+    saved = devices.monotonic
+    devices.monotonic = clock
+    logging.disable(logging.CRITICAL)
+    try:
+        for ev in case["events"]:
+            rest0 = rest()
+            per = [0] * n
+            if ev[0] == "r":
+                del reads[:]
+                valves[ev[1]].reset()
+                per[ev[1]] = len(reads)
+            elif ev[0] == "u":
+                del reads[:]
+                valves[ev[1]].update()
+                per[ev[1]] = len(reads)
+            elif ev[0] == "c":          # one cycle of the group: the real update_devices on the frame that came back
+                del reads[:]
+                sg.update_devices(bytes(data))
+                per = [len(reads)]      # total
+            elif ev[0] == "t":
+                valves[ev[1]].target = bool(ev[2]) if ev[2] < 2 else ev[2]
+            elif ev[0] == "s":
+                setbit(ev[1], "open", ev[2])
+                setbit(ev[1], "closed", ev[3])
+            elif ev[0] == "a":
+                now[0] += ev[1]
+            steps.append({"ev": ev, "now": now[0], "reads": per, "rest_kept": rest0 == rest() or ev[0] == "s", "after": snapshot()})
+    finally:
+        devices.monotonic = saved
+        logging.disable(logging.NOTSET)
+    return steps
+
+
+def show_group(steps):
+    def one(s):
+        lg = s["lastGood"]
+        lgs = "0" if lg is None else (str(int(lg)) if lg == int(lg) else repr(lg))     # no lastGood before the first reset: model's 0
+        return f"{int(s['coil_read'])} {int(s['target'])} {int(s['error'])} {lgs}"
+    return " | ".join(" / ".join(one(v) for v in s["after"]) for s in steps)
+
+
+def oracle_group(ctx, case, steps):
+    """the property for every valve of the group, decided from what was REQUESTED of that valve (the targets assigned to it, its
+    own switch bits as written into the process image, its own safeState / movingTime, its own resets) and the coil bit in the
+    process image — not from what the device objects report as target / error, which is compared with it instead"""
+    obs = show_group(steps)
+    group = case["group"]
+    n = len(group)
+    req = [0] * n                 # requested target: last assignment to this valve, or its safe state after ITS time-out
+    err = [False] * n             # error: set by ITS time-out, cleared by ITS reset
+    sw = [(bool(vc["open0"]), bool(vc["closed0"])) for vc in group]
+    coil = [bool(vc["coil0"]) for vc in group]
+    last_confirm = [None] * n
+    last_reset = [None] * n
+
+    def updated(i, now, after, who):
+        """valve i's update() ran at `now`; returns False when the oracle failed"""
+        safe, mt = bool(group[i]["safe"]), group[i]["mt"]
+        a = after[i]
+        follows = a["coil"] == bool(req[i]) and a["target"] == req[i] and bool(a["error"]) == err[i]
+        safed = a["error"] is True and a["coil"] is safe and a["target"] is safe
+        ok = ctx.require(follows or safed, f"valve {i}: update neither followed the valve's own requested target nor went to its "
+                         "own safe state with error", case, obs, "shape")
+        opn, cls = sw[i]
+        if not safe:
+            confirm = (opn and not cls) if coil[i] else (cls and not opn)
+            if confirm:
+                last_confirm[i] = now
+            if confirm or now - last_confirm[i] < mt:
+                ok &= ctx.require(follows, f"valve {i}: coil did not follow the valve's own target although its position was confirmed "
+                                  "within its moving time", case, obs, "follow")
+            else:
+                ok &= ctx.require(safed, f"valve {i}: its time-out did not set its error and force its coil and target to its safe state",
+                                  case, obs, "timeout")
+        elif now - last_reset[i] < mt:
+            ok &= ctx.require(follows, f"valve {i}: safe state forced before its moving time had elapsed", case, obs, "follow")
+        if ok and not follows:
+            req[i], err[i] = safe, True
+        coil[i] = a["coil"]
+        return ok
+
+    for s in steps:
+        ev, now, after = s["ev"], s["now"], s["after"]
+        ok = ctx.require(s["rest_kept"], "a bit of the process image other than the coils was changed", case, obs, "other-bits")
+        touched = set()
+        if ev[0] == "r":
+            i = ev[1]
+            err[i] = False
+            last_confirm[i] = last_reset[i] = now
+            ok &= ctx.require(after[i]["error"] is False, f"valve {i}: reset did not clear the error", case, obs, "reset")
+            ok &= ctx.require(s["reads"][i] == 1, "reset read the clock more or less than once", case, obs, "clock")
+        elif ev[0] == "t":
+            req[ev[1]] = bool(ev[2]) if ev[2] < 2 else ev[2]
+        elif ev[0] == "s":
+            sw[ev[1]] = (bool(ev[2]), bool(ev[3]))
+        elif ev[0] == "u":
+            touched.add(ev[1])
+            ok = ok and updated(ev[1], now, after, "update")
+            ok &= ctx.require(s["reads"][ev[1]] == 1, "update read the clock more or less than once", case, obs, "clock")
+        elif ev[0] == "c":
+            touched.update(range(n))
+            for i in range(n):
+                ok = ok and updated(i, now, after, "cycle")
+            ok &= ctx.require(s["reads"][0] == n, "a cycle did not read the clock once per valve", case, obs, "clock")
+        # every valve that did not run keeps its coil; every valve reports its own requested target and its own error
+        for i in range(n):
+            a = after[i]
+            if i not in touched:
+                ok &= ctx.require(a["coil"] == coil[i], f"valve {i}: coil changed without an update of this valve", case, obs, "cross-talk")
+            ok &= ctx.require(a["target"] == req[i] and bool(a["error"]) == err[i] and a["coil_read"] == a["coil"],
+                              f"valve {i}: target / error are not what was requested of / happened to this valve", case, obs, "cross-talk")
+        if not ok:
+            return
+
+
+def gen_group(rng, maxlen):
+    """2-3 valves (sometimes 1) in one group, on one or two digital terminals, different safe states and moving times; events
+    address single valves, `c` is a cycle of the whole group"""
+    n = rng.choice([1, 2, 2, 2, 3, 3])
+    nt = rng.choice([1, 2])
+    terms = [{"pos": 3 + 4 * k, "in_sz": rng.choice([1, 2]), "out_sz": rng.choice([1, 2]), "fmmu": rng.random() < 0.7} for k in range(nt)]
+    outs = [(k, p, b) for k, t in enumerate(terms) for p in range(t["out_sz"]) for b in range(8)]
+    ins = [(k, p, b) for k, t in enumerate(terms) for p in range(t["in_sz"]) for b in range(8)]
+    co = rng.sample(outs, n)
+    sws = rng.sample(ins, 2 * n)
+    same = rng.random() < 0.4           # identical configuration: only the objects differ
+    mt0, safe0 = rng.choice([5 * 1024, 1024, 3, 1, 0, rng.randrange(1, 4000)]), rng.random() < 0.3
+    group = []
+    for i in range(n):
+        mt = mt0 if same else rng.choice([5 * 1024, 1024, 3, 1, 0, rng.randrange(1, 4000), rng.randrange(1, 40) * 512])
+        group.append({"safe": safe0 if same else rng.random() < 0.4, "mt": mt, "mtint": rng.random() < 0.5,
+                      "coil": list(co[i]), "open": list(sws[2 * i]), "closed": list(sws[2 * i + 1]),
+                      "coil0": rng.random() < 0.4, "open0": rng.randrange(2), "closed0": rng.randrange(2)})
+    mts = [g["mt"] for g in group]
+    evs = [["r", i] for i in range(n)]
+    for _ in range(rng.randrange(1, maxlen + 1)):
+        r = rng.random()
+        i = rng.randrange(n)
+        if r < 0.30:
+            evs.append(["c"])
+        elif r < 0.38:
+            evs.append(["u", i])
+        elif r < 0.60:
+            mt = rng.choice(mts)
+            evs.append(["a", rng.choice([0, 1, 1, 2, max(mt - 1, 0), mt, mt + 1, mt // 2, rng.randrange(0, 2 * mt + 3)])])
+        elif r < 0.78:
+            evs.append(["t", i, rng.choice([0, 1, 2, 255]) if rng.random() < 0.15 else rng.randrange(2)])
+        elif r < 0.95:
+            if rng.random() < 0.5:      # the position the valve's coil commands right now is not known here: any reading
+                evs.append(["s", i, rng.randrange(2), rng.randrange(2)])
+            else:
+                o = rng.randrange(2)
+                evs.append(["s", i, o, 1 - o])
+        else:
+            evs.append(["r", i])
+    return {"group": group, "terms": terms, "t0": rng.choice([0, rng.randrange(1 << 20), rng.randrange(1 << 36)]), "events": evs}
+
+
+def directed_group():
+    """two / three valves, one is asked to open and never arrives, the others are asked the opposite / nothing; both safe states"""
+    out = []
+    terms = [{"pos": 3, "in_sz": 1, "out_sz": 1, "fmmu": True}]
+    for safes in ((False, False), (False, True), (True, False), (False, False, True)):
+        for mts in ((3, 3), (3, 1000), (1000, 3)):
+            for tgt in ((1, 0), (0, 1), (1, 1)):
+                n = len(safes)
+                group = [{"safe": safes[i], "mt": mts[i % 2], "mtint": True, "coil": [0, 0, i], "open": [0, 0, 2 * i], "closed": [0, 0, 2 * i + 1],
+                          "coil0": False, "open0": 0, "closed0": 1} for i in range(n)]
+                evs = [["r", i] for i in range(n)] + [["t", 0, tgt[0]], ["t", 1, tgt[1]], ["c"], ["s", 0, 0, 0], ["a", 2], ["c"], ["a", 1], ["c"],
+                                                      ["s", 1, 1, 0], ["a", 1000], ["c"], ["r", 0], ["c"], ["t", 1, 1 - tgt[1]], ["u", 1], ["c"]]
+                out.append({"group": group, "terms": terms, "t0": 4096, "events": evs})
+    return out
+
+
+def classify_group(case, steps):
+    """(number of valve updates that left the error clear, number that newly set it, cycles in which one valve timed out while
+    another one of the group did not)"""
+    f = t = mixed = 0
+    prev = [False] * len(case["group"])
+    for s in steps:
+        if s["ev"][0] in "uc":
+            new = [bool(a["error"]) and not p for a, p in zip(s["after"], prev)]
+            t += sum(new)
+            f += sum(1 for a in s["after"] if not a["error"])
+            if s["ev"][0] == "c" and any(new) and not all(bool(a["error"]) for a in s["after"]):
+                mixed += 1
+        prev = [bool(a["error"]) for a in s["after"]]
+    return f, t, mixed
+
+
 def classify(steps, case):
     f = t = 0
     for s in steps:
@@ -263,8 +562,27 @@ def classify(steps, case):
     return f, t
 
 
+def run_groups(ctx, maxlen):
+    cases = directed_group() + [gen_group(ctx.rng, maxlen) for _ in range(ctx.n(2500, 30000))]
+    impl = []
+    for c in cases:
+        steps = run_group(c)
+        impl.append(show_group(steps))
+        f, t, mixed = classify_group(c, steps)
+        ctx.stats["group-updates-following"] += f
+        ctx.stats["group-updates-timeout-first"] += t
+        ctx.stats["group-cycles-one-times-out-other-not"] += mixed
+        ctx.case(c, nontrivial=len(c["group"]) > 1 and f > 0 and t > 0, kind=f"group-of-{len(c['group'])}" + ("/mixed" if mixed else ""))
+        oracle_group(ctx, c, steps)
+    model = ctx.drive(DRIVER, cases, "valve groups")
+    if model is not None:
+        for c, i, m in zip(cases, impl, model):
+            ctx.agree("coil/target/error/lastGood of every valve of the group after every event", c, i, m)
+
+
 def run(ctx):
     maxlen = ctx.n(30, 60)
+    run_groups(ctx, maxlen)
     cases = directed()           # small histories first: the first failing case is the replay
     cases += [gen(ctx.rng, maxlen) for _ in range(ctx.n(12000, 100000))]
     cases += [gen_plant(ctx.rng, maxlen) for _ in range(ctx.n(1500, 10000))]
@@ -285,6 +603,10 @@ def run(ctx):
 
 
 def replay(ctx, case):
+    if "group" in case:
+        steps = run_group(case)
+        oracle_group(ctx, case, steps)
+        return {"trace": show_group(steps)}
     steps = run_impl(case)
     oracle(ctx, case, steps)
     return {"trace": show(steps)}
@@ -296,7 +618,10 @@ LEVEL_TEXT = ("Lean 4 proof over a hand-written model of Valve.update/reset with
               "and error unchanged) exactly when the switches confirm or less than movingTime has passed since they last did, or else sets "
               "error and forces coil and target to safeState; error is only ever set by such a timeout and stays until reset; for the default "
               "safe state the code's check is proved equal to 'the switches show exactly the position the coil commands'. Tied to /repo by "
-              "exact correspondence of coil/target/error/lastGood after every event of the real Valve object in slow-group mode.")
+              "exact correspondence of coil/target/error/lastGood after every event of the real Valve object in slow-group mode. Several valves in one "
+              "slow sync group: proved independent (after any group history each valve is in the state a single valve reaches on the events it sees: its "
+              "own requests, the cycles, the clock), so the property holds for every valve of a group whatever the others do; tied by the same exact "
+              "correspondence for 1-3 real Valve objects in one real SyncGroup.")
 LEVEL_NOTE = ("trusted: Lean kernel + propext/Classical.choice/Quot.sound; hand transcription Ebv.Valve validated (not verified) by differential "
               "runs; time in exactly representable ticks; coil is a bit variable; for safeState=True the code compares the coil with safeState, "
               "so its position check expects the closed switch while the coil is on (proved as good_open_safe_inverted) — outside the "
